@@ -311,6 +311,9 @@ func appendPBDesigns(replay bool) []core.Design {
 		for i, e := range emitted {
 			c, _ := e["c"].(map[string]any)
 			ctor := gen.Ctor("gteq", toInts(c["lits"]), toInts(c["w"]), int(c["d"].(float64)))
+			if allOnes(toInts(c["w"])) && i%4 < 2 { // a cardinality constraint: also as NewCardClause
+				ctor = gen.Ctor("atleast", toInts(c["lits"]), nil, int(c["d"].(float64)))
+			}
 			facts := toInts(e["facts"])
 			nv := int(e["n"].(float64))
 			var base [][]int
@@ -358,6 +361,11 @@ func parsePBCases(env *core.Env, emitted []core.Case) []core.Case {
 		for _, f := range toInts(e["facts"]) {
 			units = append(units, gen.Clause(f))
 		}
+		front := "pb"
+		if allOnes(toInts(c["w"])) && i%4 < 2 { // a cardinality constraint: also through the cardinality front end
+			front = "card"
+			ctor = gen.Ctor("atleast", toInts(c["lits"]), nil, int(c["d"].(float64)))
+		}
 		cons := append(append([]gen.M{}, units...), ctor)
 		if i%2 == 1 {
 			cons = append([]gen.M{ctor}, units...)
@@ -366,7 +374,7 @@ func parsePBCases(env *core.Env, emitted []core.Case) []core.Case {
 		if i%3 == 0 {
 			ev = []gen.M{gen.Op("solve")}
 		}
-		res = append(res, gen.APICase("pb", int(e["n"].(float64)), false, cons, false, nil, gen.Cfg(false, 0, 0, false, false, true), ev))
+		res = append(res, gen.APICase(front, int(e["n"].(float64)), false, cons, false, nil, gen.Cfg(false, 0, 0, false, false, true), ev))
 	}
 	if max := env.Pick(4000, 60000); len(res) > max {
 		env.Rand.Shuffle(len(res), func(i, j int) { res[i], res[j] = res[j], res[i] })
@@ -375,15 +383,62 @@ func parsePBCases(env *core.Env, emitted []core.Case) []core.Case {
 	return res
 }
 
+// parsePBSeqCases: the constraint sequences of ParsePB.tla through the constraint constructors
+// (ParsePBConstrs), through the cardinality front end when every weight is 1, and as an OPB text
+// (ParseOPB): what parse-time simplification leaves must have exactly the models of the sequence.
+func parsePBSeqCases(env *core.Env, emitted []core.Case) []core.Case {
+	var res []core.Case
+	for i, e := range emitted {
+		var cons []gen.M
+		card := true
+		l, _ := e["cons"].([]any)
+		for _, x := range l {
+			c, _ := x.(map[string]any)
+			if !allOnes(toInts(c["w"])) {
+				card = false
+			}
+			cons = append(cons, gen.Ctor("gteq", toInts(c["lits"]), toInts(c["w"]), int(c["d"].(float64))))
+		}
+		front := []string{"pb", "opb", "pb"}[i%3]
+		if card && i%4 == 1 {
+			front = "card"
+			for _, k := range cons {
+				k["k"] = "atleast" // all weights are 1: at least rhs of the literals
+			}
+		}
+		ev := []gen.M{gen.Op("count")}
+		if i%5 == 0 {
+			ev = []gen.M{gen.Op("solve")}
+		}
+		res = append(res, gen.APICase(front, int(e["n"].(float64)), false, cons, false, nil, gen.Cfg(false, 0, 0, false, false, true), ev))
+	}
+	if max := env.Pick(5000, 90000); len(res) > max {
+		env.Rand.Shuffle(len(res), func(i, j int) { res[i], res[j] = res[j], res[i] })
+		res = res[:max]
+	}
+	return res
+}
+
+func allOnes(w []int) bool {
+	for _, x := range w {
+		if x != 1 {
+			return false
+		}
+	}
+	return true
+}
+
 func init() {
 	// C02 — cardinality and pseudo-boolean constraints
 	register(&core.Check{
-		ID:          "C02",
-		Amplify:     amplifyAPI,
+		ID:      "C02",
+		Amplify: amplifyAPI,
 		Designs: []core.Design{
 			{Name: "normalize", Module: "Normalize", Cfg: "Normalize_quick.cfg", Tier: "quick", Workers: 4, XmxMB: 4000, Timeout: 10 * time.Minute, ToCases: normalizeCases},
 			{Name: "normalize", Module: "Normalize", Cfg: "Normalize_thorough.cfg", Tier: "thorough", Workers: 16, XmxMB: 8000, Timeout: 30 * time.Minute, ToCases: normalizeCases},
 			{Name: "pbprop", Module: "PBProp", Cfg: "PBProp.cfg", Workers: 6, XmxMB: 4000, Timeout: 10 * time.Minute},
+			{Name: "parse-pb", Module: "ParsePB", Cfg: "ParsePB_quick.cfg", Workers: 8, XmxMB: 8000, Timeout: 20 * time.Minute, ToCases: parsePBSeqCases},
+			{Name: "parse-pb-single-pass", Module: "ParsePB", Cfg: "ParsePB_once.cfg", Workers: 8, XmxMB: 8000, Timeout: 20 * time.Minute, ExpectViolation: "Fixpoint"},
 			{Name: "pb-under-facts", Module: "AppendPB", Cfg: "AppendPB_quick.cfg", Tier: "quick", Workers: 8, XmxMB: 6000, Timeout: 20 * time.Minute, ToCases: parsePBCases},
 			{Name: "pb-under-facts", Module: "AppendPB", Cfg: "AppendPB_thorough.cfg", Tier: "thorough", Workers: 16, XmxMB: 12000, Timeout: 30 * time.Minute, ToCases: parsePBCases},
 		},
@@ -415,8 +470,8 @@ func init() {
 
 	// C03 — optimisation
 	register(&core.Check{
-		ID:          "C03",
-		Amplify:     amplifyAPI,
+		ID:      "C03",
+		Amplify: amplifyAPI,
 		Designs: []core.Design{
 			{Name: "optimize", Module: "Optimize", Cfg: "Optimize.cfg", Workers: 8, XmxMB: 6000, Timeout: 10 * time.Minute,
 				// every (model set over 3 variables, weights 0..2) pair: the CNF with exactly those models, optimised
@@ -535,8 +590,8 @@ func init() {
 
 	// C05 — counting and enumeration
 	register(&core.Check{
-		ID:          "C05",
-		Amplify:     amplifyAPI,
+		ID:      "C05",
+		Amplify: amplifyAPI,
 		Designs: []core.Design{
 			{Name: "twowatch-highest", Module: "TwoWatch", Cfg: "TwoWatch_intended.cfg", Tier: "quick", Workers: 4, XmxMB: 2000, Timeout: 5 * time.Minute},
 			{Name: "twowatch-highest", Module: "TwoWatch", Cfg: "TwoWatch_intended4.cfg", Tier: "thorough", Workers: 8, XmxMB: 4000, Timeout: 10 * time.Minute},
@@ -696,8 +751,8 @@ func init() {
 
 	// C10 — assumptions
 	register(&core.Check{
-		ID:          "C10",
-		Amplify:     amplifyAPI,
+		ID:      "C10",
+		Amplify: amplifyAPI,
 		Designs: append(histDesigns("assume"),
 			core.Design{Name: "incremental-keep", Module: "Incremental", Cfg: "Incremental_keep.cfg", Workers: 6, XmxMB: 4000, Timeout: 5 * time.Minute},
 			core.Design{Name: "incremental-wipe", Module: "Incremental", Cfg: "Incremental_wipe.cfg", Workers: 1, XmxMB: 2000, Timeout: 5 * time.Minute, ExpectViolation: "RefinesAPI"}),
@@ -765,8 +820,8 @@ func init() {
 
 	// C15 — at-most-one detection
 	register(&core.Check{
-		ID:          "C15",
-		Amplify:     amplifyAPI,
+		ID:      "C15",
+		Amplify: amplifyAPI,
 		Designs: []core.Design{
 			{Name: "amo", Module: "AMO", Cfg: "AMO.cfg", Workers: 8, XmxMB: 6000, Timeout: 10 * time.Minute, ToCases: func(env *core.Env, emitted []core.Case) []core.Case {
 				var res []core.Case
